@@ -234,19 +234,14 @@ def _confirm_fresh(path):
     return p.returncode == EXIT_VIOLATION, p.stdout + p.stderr
 
 
-def run_check(engine_name, tier, verif_seed, workers=None, evidence=True, quiet=False):
-    t0 = time.monotonic()
-    scratch_root()          # created (and exported) before the pool forks; removed at exit of this process
-    eng = get_engine(engine_name)
-    prop = eng.PROPERTY
-    workers = workers or int(os.environ.get("VERIF_WORKERS", "0")) or min(16, os.cpu_count() or 1)
-    units = eng.plan(tier, verif_seed)
+def run_batch(engine_name, verif_seed, units, workers, known=(), prop=None, deadline=None, t0=None):
+    """Execute `units` (list of params; index = run index) on `workers` forked workers; merge by chunk index.
+    The merged outcome is independent of the worker count."""
+    t0 = t0 or time.monotonic()
     indexed = list(enumerate(units))
-    nchunks = max(1, min(len(indexed), workers * 8))
+    nchunks = max(1, min(len(indexed), 128))
     chunks = [indexed[i::nchunks] for i in range(nchunks)]
-    deadline = float(os.environ.get("VERIF_BUDGET_S", "0")) or None
     total = UnitOutcome()
-    known = load_known()
     stopped_early = False
     if workers == 1:
         for ch in chunks:
@@ -254,29 +249,42 @@ def run_check(engine_name, tier, verif_seed, workers=None, evidence=True, quiet=
             if any(not _is_known(known, prop, v) for v in total.violations):
                 stopped_early = True
                 break
-    else:
-        ctx = multiprocessing.get_context("fork")
-        with ProcessPoolExecutor(max_workers=workers, mp_context=ctx) as ex:
-            futs = {ex.submit(_work, engine_name, verif_seed, ch): i for i, ch in enumerate(chunks)}
-            done = {}
-            for fut in as_completed(futs):
-                done[futs[fut]] = fut.result()
-                unknown = any(not _is_known(known, prop, v) for v in done[futs[fut]].violations)
-                over = deadline is not None and time.monotonic() - t0 > deadline
-                if unknown or over:
-                    stopped_early = True
-                    for f2 in futs:
-                        f2.cancel()
-                    break
-            if stopped_early:
-                for f2, i in futs.items():
-                    if i not in done and f2.done() and not f2.cancelled():
-                        try:
-                            done[i] = f2.result()
-                        except Exception:
-                            pass
-            for i in sorted(done):
-                total.merge(done[i])
+        return total, stopped_early
+    ctx = multiprocessing.get_context("fork")
+    with ProcessPoolExecutor(max_workers=workers, mp_context=ctx) as ex:
+        futs = {ex.submit(_work, engine_name, verif_seed, ch): i for i, ch in enumerate(chunks)}
+        done = {}
+        for fut in as_completed(futs):
+            done[futs[fut]] = fut.result()
+            unknown = any(not _is_known(known, prop, v) for v in done[futs[fut]].violations)
+            over = deadline is not None and time.monotonic() - t0 > deadline
+            if unknown or over:
+                stopped_early = True
+                for f2 in futs:
+                    f2.cancel()
+                break
+        if stopped_early:
+            for f2, i in futs.items():
+                if i not in done and f2.done() and not f2.cancelled():
+                    try:
+                        done[i] = f2.result()
+                    except Exception:
+                        pass
+        for i in sorted(done):
+            total.merge(done[i])
+    return total, stopped_early
+
+
+def run_check(engine_name, tier, verif_seed, workers=None, evidence=True, quiet=False):
+    t0 = time.monotonic()
+    scratch_root()          # created (and exported) before the pool forks; removed at exit of this process
+    eng = get_engine(engine_name)
+    prop = eng.PROPERTY
+    workers = workers or int(os.environ.get("VERIF_WORKERS", "0")) or min(16, os.cpu_count() or 1)
+    units = eng.plan(tier, verif_seed)
+    deadline = float(os.environ.get("VERIF_BUDGET_S", "0")) or None
+    known = load_known()
+    total, stopped_early = run_batch(engine_name, verif_seed, units, workers, known, prop, deadline, t0)
     wall_search = time.monotonic() - t0
 
     # ---- violations: known-findings filter, minimise, replay file, fresh confirmation ----
